@@ -134,7 +134,7 @@ def r2_pipeline(ctx):
     ctx.form(bool(copies) and all(copies), NB, "BaseNode.modify_value", "works on a copy of the definition's typed value (type, width, sign kept)")
     ctx.form(bool(final) and all(final), NB, "BaseNode.modify_value", "the converted value is stored through the node's own setter; none is stored as none")
     # conversion in NumberType.convert: decision table over (unit given, own unit present, units equal, environment given)
-    from ..flowexpr import consistent
+    from ..flowexpr import consistent, reduce_ifexp
     fn = ctx.fn(TN, "NumberType.convert")
     pa = [a.arg for a in fn.args.args]
     if len(pa) != 3:
@@ -142,21 +142,26 @@ def r2_pipeline(ctx):
         return
     _, u, en = pa
     ps = paths(fn)
-    want_val = f"Quantity(float(self.value), self.unit).value({u})"
     rows = {"direction": [], "gate": [], "adopt": [], "env": []}
+    arr_atoms = {"isinstance(self.value, np.ndarray)": True, "isinstance(self.value, (list, np.ndarray))": True, "isinstance(self.value, (np.ndarray, list))": True,
+                 "np.ndim(self.value) > 0": True, "np.ndim(self.value) == 0": False, "np.ndim(self.value) != 0": True, "np.isscalar(self.value)": False,
+                 "hasattr(self.value, '__len__')": True, "hasattr(self.value, 'shape')": True}
     unk = []
     for given in (True, False):
         for own in (True, False):
             for equal in (True, False):
-                for noenv in (True, False):
-                    def atom(e, _g=given, _o=own, _e=equal, _n=noenv):
+                for noenv, isarr in ((a, b) for a in (True, False) for b in (True, False)):
+                    def atom(e, _g=given, _o=own, _e=equal, _n=noenv, _a=isarr):
+                        t = norm(e)
+                        if t in arr_atoms:
+                            return arr_atoms[t] == _a
                         return {u: _g, "self.unit": _o, f"self.unit != {u}": not _e, f"self.unit == {u}": _e, f"{u} != self.unit": not _e, f"{u} == self.unit": _e,
-                                f"{en} is None": _n, f"{en} is not None": not _n, en: not _n}.get(norm(e))
+                                f"{en} is None": _n, f"{en} is not None": not _n, en: not _n}.get(t)
                     cs, un = consistent(ps, atom)
                     unk += un
                     conv = given and own and not equal
                     for q in cs:
-                        vals = [norm(e.resolved) for e in q.events if e.kind == "store" and e.extra == "self.value"]
+                        vals = [(isarr, reduce_ifexp(e.resolved, atom)) for e in q.events if e.kind == "store" and e.extra == "self.value"]
                         units = [norm(e.resolved) for e in q.events if e.kind == "store" and e.extra == "self.unit"]
                         withs = [norm(e.resolved) for e in q.events if e.kind == "expr" and e.extra == "with"]
                         rows["gate"].append((conv, bool(vals), f"unit={given} own={own} equal={equal}"))
@@ -171,12 +176,63 @@ def r2_pipeline(ctx):
         ctx.unrecognised(TN, "NumberType.convert", "conversion table", f"test not decided: {sorted(set(unk))[:2]}")
     else:
         ctx.floor("conversion paths in NumberType.convert", len(rows["direction"]), 2, file=TN)
-        ctx.check(all(v == [want_val] for v in rows["direction"]), TN, "NumberType.convert", "value is read in its own unit and asked for in the target unit",
-                  detail=sorted({str(v) for v in rows["direction"]}), expected=want_val)
+        _conversion_shape(ctx, rows["direction"], u)
         badg = sorted({g[2] for g in rows["gate"] if g[0] != g[1]})
         ctx.check(not badg, TN, "NumberType.convert", "a unit-less assignment (or an unchanged unit) is taken as it is; otherwise converted", detail=badg or None)
         ctx.check(all(x == [u] for x in rows["adopt"]), TN, "NumberType.convert", "after conversion the value carries the target unit", detail=sorted({str(x) for x in rows["adopt"]}))
         ctx.form(bool(rows["env"]) and all(rows["env"]), TN, "NumberType.convert", "custom units of the environment are in scope during the conversion")
+
+
+SCALAR_ONLY = ("float", "int", "complex")     # raise TypeError on arrays of more than one element
+ARRAY_SAFE = ("self.value", "np.asarray(self.value)", "np.asarray(self.value, dtype=float)", "np.asarray(self.value, float)", "np.array(self.value, dtype=float)",
+              "np.array(self.value)", "self.value.astype(float)", "np.float64(self.value)", "np.multiply(self.value, 1.0)", "self.value * 1.0", "1.0 * self.value")
+
+
+def _conversion_shape(ctx, stores, u):
+    """stores: per conversion path the list of (value is an array, expression stored into self.value).  The stored
+    expression has to be Quantity(M, self.unit).value(<target>) - the magnitude M read in the value's own unit and
+    asked for in the target unit - and M has to be defined for the values the wrapper can hold: a scalar and, for a
+    node declared with dimensions, the numpy array BaseNode.cast_value builds."""
+    import ast as _ast
+    where = (TN, "NumberType.convert")
+    swapped, scalar_only, other = [], [], []
+    nsites = 0
+    for vals in stores:
+        if len(vals) != 1:
+            other.append(f"{len(vals)} stores into self.value on a conversion path")
+            continue
+        isarr, e = vals[0]
+        ok = isinstance(e, _ast.Call) and isinstance(e.func, _ast.Attribute) and e.func.attr == "value" and len(e.args) == 1 and not e.keywords \
+            and isinstance(e.func.value, _ast.Call) and norm(e.func.value.func) == "Quantity" and len(e.func.value.args) == 2 and not e.func.value.keywords
+        if not ok:
+            other.append(norm(e))
+            continue
+        mag, own, target = e.func.value.args[0], norm(e.func.value.args[1]), norm(e.args[0])
+        nsites += 1
+        if (own, target) == (u, "self.unit"):
+            swapped.append(norm(e))
+            continue
+        if (own, target) != ("self.unit", u):
+            other.append(norm(e))
+            continue
+        m = norm(mag)
+        if isinstance(mag, _ast.Call) and isinstance(mag.func, _ast.Name) and mag.func.id in SCALAR_ONLY and len(mag.args) == 1 and norm(mag.args[0]) == "self.value":
+            if isarr:
+                scalar_only.append(m)
+        elif m not in ARRAY_SAFE:
+            other.append(f"magnitude {m}")
+    ctx.floor("conversion stores of NumberType.convert", nsites, 2, file=TN)
+    ctx.check(not swapped, *where, "value is read in its own unit and asked for in the target unit", detail=sorted(set(swapped)) or None,
+              expected=f"Quantity(<magnitude>, self.unit).value({u})")
+    # values of nodes declared with dimensions are numpy arrays: established from BaseNode.cast_value
+    cast = ctx.fn(NB, "BaseNode.cast_value")
+    arrays = [n for n in _ast.walk(cast) if isinstance(n, _ast.Call) and norm(n.func) in ("np.array", "np.asarray", "numpy.array")]
+    ctx.form(bool(arrays), NB, "BaseNode.cast_value", "values of nodes declared with dimensions are built as numpy arrays")
+    if arrays:
+        ctx.check(not scalar_only, *where, "the conversion is defined for array values (no scalar-only coercion reaches an array)",
+                  detail=[f"{x} raises TypeError for an array of more than one element; reached with no test that excludes arrays" for x in sorted(set(scalar_only))] or None,
+                  expected="array values converted element-wise, e.g. Quantity(self.value, self.unit).value(unit)")
+    ctx.form(not other, *where, "conversion has the shape Quantity(<magnitude of self.value>, self.unit).value(<target unit>)", detail=sorted(set(other))[:3] or None)
 
 
 def _wrapper_classes(ctx):
